@@ -126,7 +126,7 @@ Theorem documented_sentences_hold :
   says doc_text_constraint_stride_range "Stride values for both width and height must be in the range [, ]"%string /\
   says doc_text_constraint_bias_40bit "Optional Bias tensor values must fit within -bits"%string /\
   says doc_text_constraint_mean_width "If Width axis is reduced its shape must be no greater than ."%string.
-Proof. destruct documented_sentences as (_ & H1 & _ & _ & _ & H2 & H). repeat split; try assumption. tauto. Qed.
+Proof. exact documented_sentences_3. Qed.
 
 (* ---- the drivers and the report ---- *)
 Theorem supported_is_conjunction : forall res op,
